@@ -24,6 +24,18 @@ def plan(tier, seed):
 
 
 def oracle(desc, op, exact):
+    from mc import probe as P
+
+    probs, yes = _oracle(desc, op, exact)
+    red = P.lib('reduce', op.reduce)
+    if red is not op:   # what reduce() returns is an operator handed to solvers too
+        p2, y2 = _oracle(desc, red, exact)
+        probs += [(k + '-after-reduce', d) for k, d in p2]
+        yes = yes or y2
+    return probs, yes
+
+
+def _oracle(desc, op, exact):
     import lineax as lx
     import numpy as np
 
@@ -67,6 +79,14 @@ def oracle(desc, op, exact):
         yes.append('square')
         if not P.same_struct(op.in_structure(), op.out_structure()) or mat().shape[0] != mat().shape[1]:
             probs.append(('false-square', f'{cls.__name__} is decorated square but maps {mat().shape[1]} -> {mat().shape[0]} elements'))
+        else:
+            import jax
+            import jax.numpy as jnp
+
+            y = P.lib('mv', op.mv, jax.tree.map(lambda l: jnp.ones(l.shape, l.dtype), op.in_structure()))
+            wide = any(np.dtype(v.dtype).itemsize > np.dtype(l.dtype).itemsize for v, l in zip(jax.tree.leaves(op), jax.tree.leaves(op.in_structure())) if hasattr(v, 'dtype')) if False else False
+            if P.actual_struct_sig(y) != P.ssig(op.in_structure()) and 'widening' not in desc['a'] and 'complex' not in desc['a']:
+                probs.append(('false-square', f'{cls.__name__} is decorated square but returns {P.actual_struct_sig(y)} for an input of structure {P.ssig(op.in_structure())}'))
     if getattr(cls, 'inverse', None) is getattr(cls, 'transpose', None):
         yes.append('orthogonal')
         m = mat()
